@@ -53,9 +53,10 @@ theorem refine_patch (base patch : P) :
     (base.patch patch).mandatory = (match patch.mandatory with | some d => some d | none => base.mandatory) ∧
     (base.patch patch).config = (match patch.config with | some d => some d | none => base.config) ∧
     (base.patch patch).minEl = (match patch.minEl with | some d => some d | none => base.minEl) ∧
-    (base.patch patch).maxEl = (match patch.maxEl with | some d => some d | none => base.maxEl) := by
+    (base.patch patch).maxEl = (match patch.maxEl with | some d => some d | none => base.maxEl) ∧
+    (base.patch patch).presence = (match patch.presence with | some d => some d | none => base.presence) := by
   cases patch with
-  | mk c d f m lo hi => cases c <;> cases d <;> cases f <;> cases m <;> cases lo <;> cases hi <;> simp [P.patch]
+  | mk c d f m lo hi pr => cases c <;> cases d <;> cases f <;> cases m <;> cases lo <;> cases hi <;> cases pr <;> simp [P.patch]
 
 /-- **config is inherited from the nearest ancestor that states it** -/
 theorem config_inherited (cfg : Bool) (k : Kind) (n : String) (p : P) (kids : List T) :
